@@ -70,7 +70,7 @@ def programs(tier, pid):
             p["failsets"] = [[]] + [[n] for n in names]
         return ps
     if tier == "quick":
-        ps = [P1, P3, P4, P2]
+        ps = [P1, P5, P4] if pid == "C14" else [P1, P3, P4, P2]
     else:
         for p in (P1, P3, P5, P7):
             p["ncontents"] = 3
